@@ -1341,6 +1341,13 @@ func (c *Compiler) compileSetItem(node *ast.Assign) error {
 
 	// Handle compound operators (*=, +=, etc.)
 	if node.Operator() != "=" {
+		// The container and the index are evaluated once. Only when they and
+		// the value are all names or literals, so that nothing can happen
+		// between two evaluations of them, are they simply compiled again
+		// for the store.
+		if !isNameOrLiteral(index.Left()) || !isNameOrLiteral(index.Index()) || !isNameOrLiteral(node.Value()) {
+			return c.compileCompoundSetItem(node)
+		}
 		// 1. Load the current value: test[0]
 		if err := c.compile(index.Left()); err != nil {
 			return err
@@ -1382,6 +1389,55 @@ func (c *Compiler) compileSetItem(node *ast.Assign) error {
 	if err := c.compile(index.Index()); err != nil {
 		return err
 	}
+	c.emit(op.StoreSubscr)
+	return nil
+}
+
+// isNameOrLiteral reports whether evaluating the expression has no effect
+// and cannot be affected by evaluating anything else: an identifier or a
+// literal without parts (a string may be a template that calls functions).
+func isNameOrLiteral(node ast.Node) bool {
+	switch node.(type) {
+	case *ast.Ident, *ast.Int, *ast.Float, *ast.Bool, *ast.Nil:
+		return true
+	}
+	return false
+}
+
+// compileCompoundSetItem compiles container[index] op= value so that the
+// container and the index expressions are evaluated once: they are
+// duplicated for the read, and the originals are used for the store.
+func (c *Compiler) compileCompoundSetItem(node *ast.Assign) error {
+	index := node.Index()
+	if err := c.compile(index.Left()); err != nil {
+		return err
+	}
+	if err := c.compile(index.Index()); err != nil {
+		return err
+	}
+	// [container, index] -> [container, index, container, index]
+	c.emit(op.Copy, 1)
+	c.emit(op.Copy, 1)
+	c.emit(op.BinarySubscr)
+	if err := c.compile(node.Value()); err != nil {
+		return err
+	}
+	switch node.Operator() {
+	case "+=":
+		c.emit(op.BinaryOp, uint16(op.Add))
+	case "-=":
+		c.emit(op.BinaryOp, uint16(op.Subtract))
+	case "*=":
+		c.emit(op.BinaryOp, uint16(op.Multiply))
+	case "/=":
+		c.emit(op.BinaryOp, uint16(op.Divide))
+	default:
+		return fmt.Errorf("compile error: unsupported compound assignment operator: %s", node.Operator())
+	}
+	// [container, index, result] -> [result, container, index], which is
+	// what StoreSubscr expects
+	c.emit(op.Swap, 2)
+	c.emit(op.Swap, 1)
 	c.emit(op.StoreSubscr)
 	return nil
 }
